@@ -23,6 +23,7 @@ CLASSES = {
     'robust': {'quick': 14400, 'thorough': 144000},
     'defs': {'quick': 28800, 'thorough': 288000},
     'metrics': {'quick': 13500, 'thorough': 135000},
+    'inputs': {'quick': 14400, 'thorough': 144000},
 }
 MIN_EVENTS = {'quick': {'assert:target': 3000, 'assert:keeps': 3000, 'assert:def': 5000}}
 
@@ -449,8 +450,64 @@ def run_metrics(rng, obs):
     obs.notes = {'shape': [a, b, d]}
 
 
+def run_inputs(rng, obs):
+    """every transform / definition leaves what it was handed as it was (lists, tuples and - where copies are easiest to forget - float arrays),
+    and answers the same whatever the container"""
+    import mystic.math.measures as mm
+    n = rng.randint(3, 8)
+    x = gen_samples(rng, n)
+    w = gen_weights(rng, n, zeros=rng.random() < 0.4)
+    idx = sorted(rng.sample(range(n), rng.randint(1, n - 2)))
+    if not any(w[i] > 0 for i in range(n) if i not in idx): w[[i for i in range(n) if i not in idx][0]] = 0.7
+    if not any(w[i] > 0 for i in idx): w[idx[0]] = 0.4
+    pairs = set([tuple(sorted(rng.sample(range(n), 2)))])
+    t = rng.choice([1.0, 2.5, 7.0])
+    table = {
+        'impose_mean': lambda X, W: mm.impose_mean(t, X, W),
+        'impose_variance': lambda X, W: mm.impose_variance(t, X, W),
+        'impose_std': lambda X, W: mm.impose_std(t, X, W),
+        'impose_spread': lambda X, W: mm.impose_spread(t, X, W),
+        'impose_moment': lambda X, W: mm.impose_moment(t, X, W, order=2),
+        'impose_sum': lambda X, W: mm.impose_sum(t, W),
+        'normalize': lambda X, W: mm.normalize(W, t),
+        'impose_weight_norm': lambda X, W: mm.impose_weight_norm(X, W, t),
+        'impose_support': lambda X, W: mm.impose_support(list(idx), X, W),
+        'impose_unweighted': lambda X, W: mm.impose_unweighted(list(idx), X, W),
+        'impose_collapse': lambda X, W: mm.impose_collapse(set(pairs), X, W),
+        'impose_median': lambda X, W: mm.impose_median(t, X, W),
+        'impose_mad': lambda X, W: mm.impose_mad(t, X, W),
+        'impose_tmean': lambda X, W: mm.impose_tmean(t, X, W),
+        'mean': lambda X, W: mm.mean(X, W), 'variance': lambda X, W: mm.variance(X, W), 'std': lambda X, W: mm.std(X, W),
+        'moment': lambda X, W: mm.moment(X, W, order=3), 'spread': lambda X, W: mm.spread(X), 'median': lambda X, W: mm.median(X, W), 'mad': lambda X, W: mm.mad(X, W),
+        'support': lambda X, W: mm.support(X, W), 'support_index': lambda X, W: mm.support_index(W),
+    }
+    which = rng.choice(sorted(table))
+    f = table[which]
+    kind = rng.choice(['array', 'array', 'list', 'tuple'])
+    mk = {'array': lambda v: np.array(v, dtype=float), 'list': list, 'tuple': tuple}[kind]
+    X, W = mk(x), mk(w)
+    obs.desc = {'f': which, 'container': kind, 'x': x, 'w': w, 't': t, 'index': idx, 'pairs': sorted(pairs)}
+    def flat(r):
+        if isinstance(r, tuple) and len(r) == 2 and hasattr(r[0], '__len__'): return [float(v) for v in r[0]] + [float(v) for v in r[1]]
+        return [float(v) for v in np.ravel(np.asarray(r, dtype=float))]
+    try:
+        ref_out = flat(f(list(x), list(w)))
+    except Exception as e:
+        obs.skip('reference call raised %s' % type(e).__name__); return
+    out = flat(f(X, W))
+    obs.check([float(v) for v in X] == x and [float(v) for v in W] == w and type(X) is type(mk(x)), 'keeps:the samples and weights handed in are left as they were', f=which, container=kind,
+              x_before=x, x_after=[float(v) for v in X], w_before=w, w_after=[float(v) for v in W])
+    same = len(out) == len(ref_out) and all((a == b) or (a != a and b != b) or abs(a - b) <= 1e-9 * max(1.0, abs(a), abs(b)) for a, b in zip(out, ref_out))
+    obs.check(same, 'keeps:the answer does not depend on the container the samples and weights come in', f=which, container=kind, observed=out[:6], from_lists=ref_out[:6])
+    again = flat(f(X, W))
+    obs.check(len(again) == len(out) and all((a == b) or (a != a and b != b) for a, b in zip(again, out)), 'keeps:the same call on the same objects gives the same answer', f=which, container=kind,
+              first=out[:6], second=again[:6])
+    obs.event('assert:keeps', 3)
+    obs.nontrivial = kind == 'array'
+
+
 def run_case(cls, idx, rng, obs):
     import warnings
     warnings.simplefilter('ignore')
     np.seterr(all='ignore')
-    return {'impose': run_impose, 'support': run_support, 'robust': run_robust, 'defs': run_defs, 'metrics': run_metrics}[cls](rng, obs)
+    return {'impose': run_impose, 'support': run_support, 'robust': run_robust, 'defs': run_defs, 'metrics': run_metrics, 'inputs': run_inputs}[cls](rng, obs)
